@@ -395,6 +395,21 @@ func c06Case(run *evid.Run, i int, j *Journal) {
 					run.Violate("C06/denied-admitted", d, wit(desc), "entry %s denied by the controller was admitted (%s)", hx.Short(hs), desc)
 				}
 			}
+			// nothing may enter the observable state (heads, linearised values) without being an admitted entry
+			for _, view := range [][]string{after.Heads, after.Values, after.RawHeads, after.JSONHeads} {
+				for _, hs := range view {
+					if _, in := after.Set[hs]; in {
+						continue
+					}
+					kind := corrupted[hs]
+					if e, ok := srcMap[hs]; ok && e.GetLogID() != dst.GetID() {
+						run.Violate("C06/foreign-id-admitted", det("codec", h.Codec, "policy", pol.name, "kinds", fmt.Sprint(posClass), "via", "heads"), wit(desc), "entry %s with id %q became a head / value of log %q without being admitted as an entry (%s)", hx.Short(hs), e.GetLogID(), dst.GetID(), desc)
+					} else {
+						run.Violate("C06/non-entry-in-view", det("codec", h.Codec, "policy", pol.name, "kinds", fmt.Sprint(posClass)), wit(desc), "hash %s (%s) is exposed as head / value but is not an entry of the log (%s)", hx.Short(hs), kind, desc)
+					}
+					break
+				}
+			}
 			// everything admitted must be a candidate
 			cs := map[string]bool{}
 			for _, c := range cands {
